@@ -78,10 +78,11 @@ PROPERTIES = {
         "technique": "differential monitor (two replicas, same history) + invariant on answers",
         "exhaustive": True,
         "rule": "C16: leader agreement",
-        "anchors": ["protocol/leaderrotation/"],
+        "anchors": ["protocol/leaderrotation/", "server/server.go"],
         "parts": [
             part("C16.stateless", shards={"quick": 8, "thorough": 16}, floor=100),
             part("C16.history", shards={"quick": 8, "thorough": 16}, floor=200),
+            part("C16.wire", target=("test", "server"), shards={"quick": 9, "thorough": 9}, floor=500),
         ],
     },
     "C04": {
